@@ -144,6 +144,21 @@ def validate_translation(ctx, h, bc, native, nruns, seed, ninputs=256):
         elif len(samples) < 2: samples.append({'inputs_head': open(f).read().split()[:24], 'observations': eobs[:12]})
     return mism, samples
 
+HANG_CAP = 30
+def find_native_hang(ctx, h, cfg, tag, seed, tries=6):
+    native, err = build_native(ctx, h, cfg, tag + '_hang')
+    if native is None: return None
+    rnd = random.Random(seed * 7919 + 1); jobs = []
+    for i in range(tries):
+        f = os.path.join(ctx.work, '%s_%s_hang_%d.in' % (h['name'], tag, i))
+        vals = [rnd.getrandbits(8) if i % 2 == 0 else (1 if rnd.random() < 0.5 else 0) for _ in range(256)]
+        open(f, 'w').write('\n'.join(str(v) for v in vals) + '\n')
+        jobs.append((vals, ctx.pool.submit(native_obs, native, f, HANG_CAP)))
+    for vals, j in jobs:
+        obs, rc, err = j.result()
+        if rc == 'timeout': return vals[:64]
+    return None
+
 def replay(ctx, h, cfg, tag, inputs, kind):
     """replay a solver counterexample against the native twin built from the real sources"""
     native, err = build_native(ctx, h, cfg, tag + '_replay')
@@ -214,10 +229,10 @@ def main():
             tag = hashlib.md5((cfgname(cfg) + role).encode()).hexdigest()[:10]
             bc, err = build_query(ctx, h, cfg, tag)
             if bc is None: return item, tag, {'rc': 2, 'stdout': 'VSYMEX-INCONCLUSIVE ' + err, 'json': None, 'wall_s': 0}
-            tl = h.get('time_limit', {}).get(tier, 600 if tier == 'quick' else 3000)
+            tl = int(os.environ.get('VERIF_TIME_LIMIT', h.get('time_limit', {}).get(tier, 600 if tier == 'quick' else 3000)))
             if cfg.get('_heavy'):
-                with HEAVY: res = run_engine(ctx, bc, bc + '.json', cfg.get('_time', tl), mem_gb=cfg.get('_mem_gb'))
-            else: res = run_engine(ctx, bc, bc + '.json', cfg.get('_time', tl), mem_gb=cfg.get('_mem_gb'))
+                with HEAVY: res = run_engine(ctx, bc, bc + '.json', (int(os.environ['VERIF_TIME_LIMIT']) if os.environ.get('VERIF_TIME_LIMIT') else cfg.get('_time', tl)), mem_gb=cfg.get('_mem_gb'))
+            else: res = run_engine(ctx, bc, bc + '.json', (int(os.environ['VERIF_TIME_LIMIT']) if os.environ.get('VERIF_TIME_LIMIT') else cfg.get('_time', tl)), mem_gb=cfg.get('_mem_gb'))
             if not ctx.keep and role != 'main':
                 try: os.remove(bc)
                 except OSError: pass
@@ -258,6 +273,17 @@ def main():
             line = [l for l in res['stdout'].splitlines() if l.startswith('VSYMEX-')]
             if res['rc'] == 2 or res['json'] is None:
                 q['verdict'] = 'inconclusive'; q['why'] = (line[0] if line else res['stdout'][-300:])[:600]
+                # the engine ran out of time: is it the code under test that does not terminate?  Run the native twin on seeded
+                # inputs under a generous wall-clock cap (normal runs take milliseconds); a run that never ends is concrete,
+                # replayable evidence and is reported as a violation (kind hang), everything else stays inconclusive
+                if role == 'main' and 'time limit' in q['why'] or role == 'main' and 'wall-clock timeout' in q['why']:
+                    hang = find_native_hang(ctx, h, cfg, tag, seed)
+                    if hang is not None:
+                        rdir = os.environ.get('VERIF_REPLAY_DIR', os.path.join(VERIF, 'replays')); os.makedirs(rdir, exist_ok=True)
+                        rp = os.path.join(rdir, '%s-%s-%s.json' % (pid, h['name'], tag))
+                        json.dump({'property': pid, 'harness': h['name'], 'src': h['src'], 'tus': h['tus'], 'defines': cfg, 'inputs': hang, 'kind': 'hang', 'message': 'native twin does not terminate within %d s on these inputs' % HANG_CAP}, open(rp, 'w'), indent=1)
+                        q['verdict'] = 'violation'; q['violation'] = {'kind': 'hang', 'message': 'the operation does not terminate (native twin still running after %d s)' % HANG_CAP, 'where': h['src'], 'inputs': hang, 'replayed': True}
+                        violations.append((rp, q)); continue
                 if role == 'main' or role == 'witness' or role.startswith('selftest'): inconclusive.append({'harness': h['name'], 'config': cfgname(cfg), 'role': role, 'why': q['why']})
                 continue
             if role == 'witness':
